@@ -98,6 +98,9 @@ class OpHistory(Harness):
                     uses_ttl = "T" in ops
                     for ttl in (("none", "sym") if uses_ttl else ("none",)):
                         out.append({"ops": [first] + ops, "ttl": ttl})
+                    # short histories again with the price 0 admitted (a limit below one tick is floored to it)
+                    if n <= 2 and "C08" in self.props and sum(isinstance(a, str) and a[-1] == "L" for a in [first] + ops) >= 1:
+                        out.append({"ops": [first] + ops, "ttl": "none", "zero": True})
         # family B: a book accumulated while the market is NOT running (adds only, possibly crossed), then
         # the switch to running, then a short tail -- the state a no-execution session or a halt leaves
         if self.with_stopped_prefix:
@@ -175,7 +178,7 @@ class OpHistory(Harness):
             else:
                 is_buy, mk = op[0] == "B", op[1] == "M"
                 ttl = g.int(f"ttl{k}", 1, TTL_HI) if case["ttl"] == "sym" else None
-                o = new_order(g, str(k), is_buy=is_buy, market=mk, ttl=ttl)
+                o = new_order(g, str(k), is_buy=is_buy, market=mk, ttl=ttl, price_lo=0 if case.get("zero") else 1)
                 vol, price = o.volume, o.price
                 olog = m._add_order(o)
                 ref.orders.append({"id": olog.order_id, "is_buy": is_buy, "is_market": mk, "price": price,
